@@ -6,6 +6,10 @@
  * to the library in an exact-size heap allocation so that ASan sees any
  * access outside it.  One line of the program = one call = one trace event.
  */
+#include <sys/stat.h>
+#include <sys/wait.h>
+#include <fcntl.h>
+#include <signal.h>
 #include <sys/socket.h>
 #include <sys/un.h>
 #include <netinet/in.h>
